@@ -29,14 +29,52 @@ Proof. unfold g_loser_name, bi_cname, conflict_infix. cbv zeta. rewrite tie_shor
 Theorem tie_hub_conflict_name (dst d : list Z) : g_hub_conflict_name dst d = SafeJoin.conflict_name dst (hex12 d).
 Proof. unfold g_hub_conflict_name, SafeJoin.conflict_name, SafeJoin.conflict_infix. cbv zeta. rewrite tie_short_hash. reflexivity. Qed.
 
+(** the hub's staging name: `<dst>.<pid>.<nanos in hex>.<seq>.copia-tmp` - the destination path followed by a suffix
+    without a path separator, so a sibling of the destination, and ending in the reserved staging suffix *)
+Definition staging_tail (pid nanos seq : Z) : list Z :=
+  [46] ++ dec pid ++ [46] ++ hexz nanos ++ [46] ++ dec seq ++ SafeJoin.copia_tmp.
+
+Theorem tie_staging_name (dst : list Z) (pid nanos seq : Z) :
+  g_staging_name dst pid nanos seq = dst ++ staging_tail pid nanos seq.
+Proof. reflexivity. Qed.
+
+Lemma hexd_not_slash (n : Z) : 0 <= n < 16 -> hexd n <> 47.
+Proof. intros Hn. unfold hexd. destruct (n <? 10) eqn:E; [apply Z.ltb_lt in E|apply Z.ltb_ge in E]; lia. Qed.
+
+Lemma digits_no_slash (base : Z) (fuel : nat) : 2 <= base <= 16 -> forall (n : Z) (acc : list Z),
+  ~ In 47 acc -> ~ In 47 (digits_aux base fuel n acc).
+Proof.
+  intros Hb. induction fuel as [|f IH]; intros n acc Ha; cbn [digits_aux]; [exact Ha|].
+  assert (Hd : ~ In 47 (hexd (n mod base) :: acc)).
+  { intros [E|E]; [|exact (Ha E)]. apply (hexd_not_slash (n mod base)); [|exact E]. pose proof (Z.mod_pos_bound n base); lia. }
+  cbv zeta. destruct (n / base =? 0); [exact Hd|apply IH; exact Hd].
+Qed.
+
+Theorem staging_name_is_a_sibling (pid nanos seq : Z) : ~ In 47 (staging_tail pid nanos seq).
+Proof.
+  unfold staging_tail, dec, hexz, SafeJoin.copia_tmp. rewrite !in_app_iff.
+  pose proof (digits_no_slash 10 (S (Z.to_nat (Z.log2 pid))) ltac:(lia) pid [] (fun x => x)) as H1.
+  pose proof (digits_no_slash 16 (S (Z.to_nat (Z.log2 nanos))) ltac:(lia) nanos [] (fun x => x)) as H2.
+  pose proof (digits_no_slash 10 (S (Z.to_nat (Z.log2 seq))) ltac:(lia) seq [] (fun x => x)) as H3.
+  cbn [In]. intros [E|[E|[E|[E|[E|[E|E]]]]]]; try (destruct E as [E|E]; [discriminate|contradiction]); try contradiction.
+  repeat (destruct E as [E|E]; [discriminate|]). contradiction.
+Qed.
+
 Definition conflict_name_is_translation : Prop :=
   (forall h, g_short_hex h = hex12 h) /\ (forall h, g_short_hash h = hex12 h) /\
   (forall rel host d, g_loser_name rel host d = bi_cname host rel d) /\
-  (forall dst d, g_hub_conflict_name dst d = SafeJoin.conflict_name dst (hex12 d)).
+  (forall dst d, g_hub_conflict_name dst d = SafeJoin.conflict_name dst (hex12 d)) /\
+  (forall dst pid nanos seq, exists tail, g_staging_name dst pid nanos seq = dst ++ tail /\ ~ In 47%Z tail /\
+                                          exists pre, tail = pre ++ SafeJoin.copia_tmp).
 Lemma conflict_name_is_translation_holds : conflict_name_is_translation.
-Proof. split; [exact tie_short_hex|]. split; [exact tie_short_hash|]. split; [exact tie_loser_name|exact tie_hub_conflict_name]. Qed.
+Proof.
+  split; [exact tie_short_hex|]. split; [exact tie_short_hash|]. split; [exact tie_loser_name|]. split; [exact tie_hub_conflict_name|].
+  intros dst pid nanos seq. exists (staging_tail pid nanos seq). split; [apply tie_staging_name|]. split; [apply staging_name_is_a_sibling|].
+  exists ([46] ++ dec pid ++ [46] ++ hexz nanos ++ [46] ++ dec seq)%Z. unfold staging_tail. rewrite <- !app_assoc. reflexivity.
+Qed.
 
 Example conflict_name_nonvacuous :
   g_loser_name [102] [104] [171; 205; 1; 35; 69; 103; 9; 9]
   = [102; 46; 99; 111; 110; 102; 108; 105; 99; 116; 45; 104; 45; 97; 98; 99; 100; 48; 49; 50; 51; 52; 53; 54; 55]%Z.
 Proof. vm_compute. reflexivity. Qed.
+
